@@ -196,29 +196,79 @@ def c23(res, tier, seed):
 
 
 # ============================================================================ C45
-@check("C45")
-def c45(res, tier, seed):
-    b = build_harness(("wkt",))
-    quick = tier == "quick"
-    # the message types registered in the harness binary (for anypb round trips)
+def export_any_types(b):
+    """The message types registered in the harness binary and which abstract slots (AnyBox) each has; handed to TLC (both the
+    exhaustive run and trace validation) through WKT_TYPES."""
     p = os.path.join(scratch(), "wkt-types-req.ndjson")
     with open(p, "w") as fh:
         fh.write(json.dumps({"op": "types"}) + "\n")
     vlib.harness(b, ["exec", "structval", p, p + ".out"])
-    types = next(vlib.read_ndjson(p + ".out"))["out"]["types"]
-    if len(types) < 50:
-        raise vlib.Infra("only %d registered message types" % len(types))
+    out = next(vlib.read_ndjson(p + ".out"))["out"]
+    types, facts = out["types"], out["facts"]
+    if len(types) < 50 or len(facts) != len(types):
+        raise vlib.Infra("only %d registered message types / %d fact records" % (len(types), len(facts)))
     tp = os.path.join(scratch(), "wkt-types.json")
     with open(tp, "w") as fh:
-        json.dump({"types": types}, fh)
+        json.dump({"types": types, "facts": facts}, fh)
     os.environ["WKT_TYPES"] = tp
+    return types, facts
+
+
+def _c45_trace_env(b, case):
+    export_any_types(b)
+    return {"WKT_TYPES": os.environ["WKT_TYPES"]}
+
+
+try:
+    from props import TRACE_ENV
+    TRACE_ENV["Trace_StructVal"] = _c45_trace_env
+except ImportError:
+    pass
+
+
+def _box_empty(c):
+    return c["s"] == 0 and not c["r"] and c["q"] == 0 and c["u"] == 0
+
+
+def box_shapes(e):
+    """What one AnyBox history exercised: for every UnmarshalTo step, payload empty? x destination dirty before? x type match? x
+    options x verdict; for the other steps their kind (and the verdict)."""
+    o = e.get("exp") or e.get("out") or {}
+    obs, sh = o.get("obs", []), []
+    for i, p in enumerate(e["steps"]):
+        if i >= len(obs):
+            break
+        prev = obs[i - 1] if i else {"empty": True, "is": False, "dst": {"s": 0, "r": [], "q": 0, "u": 0}}
+        if p["a"] == "to":
+            sh.append("to:%s%s%s%s%s%s" % ("E" if prev["empty"] else "p", "D" if not _box_empty(prev["dst"]) else "c", "=" if prev["is"] else "x",
+                                           "M" if p["o"]["merge"] else "-", "P" if p["o"]["part"] else "-", "+" if obs[i]["ok"] else "!"))
+        elif p["a"] == "unew":
+            sh.append("unew:%s%s%s" % ("E" if prev["empty"] else "p", "P" if p["o"]["part"] else "-", "+" if obs[i]["ok"] else "!"))
+        elif p["a"] == "url":
+            u = _txt(p["u"])
+            sh.append("url:%s%s" % ("/" if "/" in u else "-", "=" if obs[i]["is"] else "x"))
+        else:
+            sh.append(p["a"] + ("+" if obs[i]["ok"] else "!"))
+    return sh
+
+
+@check("C45")
+def c45(res, tier, seed):
+    b = build_harness(("wkt",))
+    quick = tier == "quick"
+    types, facts = export_any_types(b)
     tour = os.path.join(scratch(), "c45.tour")
     seeds = "{1}" if quick else "{1, 2, 3, 4, 5, 6, 7, 8}"
-    r = tlc("MC_StructVal", cfg({"Tier": '"%s"' % tier, "Depth": 1 if quick else 2, "UrlLen": 4 if quick else 6, "Seeds": seeds},
+    r = tlc("MC_StructVal", cfg({"Tier": '"%s"' % tier, "Depth": 1 if quick else 2, "UrlLen": 4 if quick else 6, "Seeds": seeds,
+                                "BoxOps": 1 if quick else 2, "BoxRounds": 1 if quick else 2},
                                 invariants=["Laws"], emit="Emit"), emit_to=tour, timeout=3000)
     res.add_tlc(r, "Go values of depth <= %d over 46 leaves; Any URLs <= %d over {ab./} x 5 names; %d registered types x seeds; laws: "
                    "NewValue ok <=> convertible, AsInterface.NewValue = Conv, identity on normal forms, idempotent, encoding/json = protojson "
-                   "when finite, MessageIs <=> MessageName =, New round trips" % (1 if quick else 2, 4 if quick else 6, len(types)))
+                   "when finite, MessageIs <=> MessageName =, New round trips; AnyBox machine: histories fill;new;[url];op{<=%d} x %d round(s) "
+                   "for representative types + sweeps over all %d types and all suffix-name pairs; laws: UnmarshalTo without Merge leaves "
+                   "exactly the packed message whatever dst held, with Merge = proto.Merge, mismatch leaves dst alone, empty payload <=> "
+                   "empty message, MessageIs <=> MessageName =" % (1 if quick else 2, 4 if quick else 6, len(types), 1 if quick else 2,
+                                                                   1 if quick else 2, len(types)))
     res.exhaustive = True
 
     def key(e):
@@ -229,16 +279,44 @@ def c45(res, tier, seed):
                     ("int8", "int16", "int32", "int64", "uint8", "uint16", "uint32", "uint64", "float32", "jnum", "bytes", "bad", "nan", "inf") if '"%s"' % x in sh))]
         if e["op"] == "anyurl":
             return ["anyurl", _txt(e["n"]), o.get("is"), o.get("new"), len(_txt(o.get("name", []))) > 0, _txt(e["url"]).count("/")]
+        if e["op"] == "anybox":
+            sh = box_shapes(e)
+            f = facts[e["T"] - 1]
+            for x in sh:
+                if x.startswith("to:ED="):          # empty payload into a populated destination of the right type
+                    shape_types.add(_txt(e["tn"]))
+                    if f["q"]:
+                        shape_req_types.add(_txt(e["tn"]))
+            return ["anybox", "".join(k for k in "srq" if f[k]), sorted(set(sh))]
         return ["anyrt", _txt(e["type"])]
+    shape_types, shape_req_types = set(), set()
     replay_tour(res, b, "structval", tour, key=key)
+    tour_shape = len(shape_types)
+    shape_types.clear(); shape_req_types.clear()
     n = 5000 if quick else 150000
     drive_and_validate(res, b, "structval", "Trace_StructVal", seed, n, key=key)
     res.extra["registered_types"] = len(types)
+    res.extra["any_suffix_name_pairs"] = sum(1 for x in types for y in types if x != y and _txt(y).endswith(_txt(x)))
+    res.extra["types_with_empty_payload_into_dirty_destination"] = {"tour": tour_shape, "driver": len(shape_types),
+                                                                    "driver_with_required_fields": len(shape_req_types)}
+    if tour_shape < len(types):
+        raise vlib.Infra("the sweep reached the empty-payload x dirty-destination shape for %d of %d types" % (tour_shape, len(types)))
     res.rule = ("tour: every JSON-like Go value up to the depth bound over 46 leaves (all integer widths at their limits and around 2^53, "
                 "floats incl. NaN/Inf/-0, json.Number, valid/invalid UTF-8, []byte, a non-JSON type) with the specified Value, AsInterface "
                 "result, encoding/json and protojson images; every URL string up to the bound x 5 message names; every registered message "
                 "type x seeds through anypb.New/UnmarshalTo/UnmarshalNew/MessageIs/MessageName; distinct = (op, kind set, verdicts, size) "
-                "resp. (name, verdicts) resp. type; driver: random nested Go values, random URLs, random types with random contents")
+                "resp. (name, verdicts) resp. type; every history of the AnyBox machine (Any + destination of a registered type; steps "
+                "fill / new / url / UnmarshalTo / UnmarshalNew with Merge and AllowPartial; contents empty, populated, partially "
+                "initialised; sources: own type, suffix-name partner, unrelated type; URL variants incl. last segment merely ending in "
+                "the name) up to the bounds for representative types, plus for EVERY registered type the empty payload into a dirty "
+                "destination and for every suffix-name pair each member offered to the other, with the specified observation after "
+                "every step; distinct = (slot class, set of step shapes: payload empty? x destination dirty? x type match? x options x "
+                "verdict); driver: random nested Go values, random URLs, random types with random contents, random AnyBox histories "
+                "over all registered types (a third start with a dirty destination and a mostly empty message)")
     res.assumptions.append("float64(n) for integers |n| > 2^53 is an uninterpreted function: its value travels with the case (computed by the "
                            "Go conversion in the driver, quoted from IEEE 754 in the tour)")
     res.assumptions.append("MessageSet types are excluded from the anypb round trips (they need the protolegacy build tag)")
+    res.assumptions.append("AnyBox: message contents are abstract (one singular scalar slot, one repeated scalar slot, the required fields, "
+                           "unknown-field records); the harness maps them onto the first suitable fields of each registered type and "
+                           "projects real messages back, reporting any populated field outside the slots; which slots a type has is "
+                           "exported from the real descriptors")
